@@ -51,6 +51,7 @@ type Contract struct {
 	Declass  []*Clause
 	NoFrame  bool
 	Timeout  int
+	Options  map[string]bool // engine options for the verification of this function (e.g. digits)
 	Source   string
 	Results  []string // result names override
 	Fresh    []*Clause
@@ -402,6 +403,13 @@ func (db *SpecDB) loadFile(path string, pkgPath string, marker bool) error {
 				cur.Aliasing = rest
 			case "timeout":
 				cur.Timeout, _ = strconv.Atoi(rest)
+			case "option":
+				if cur.Options == nil {
+					cur.Options = map[string]bool{}
+				}
+				for _, o := range strings.Fields(rest) {
+					cur.Options[o] = true
+				}
 			case "results":
 				cur.Results = strings.Fields(rest)
 			case "requires", "ensures", "panics", "proves":
